@@ -231,6 +231,18 @@ def table_d_sample(tier, sd, nquick=25):
     return out
 
 
+def dnp_templates():
+    """221YYY whose span holds descriptors that are not elements (replications, a sequence, operators) and is used up exactly
+    there, followed by ordinary elements.  What such a span means is pybufrkit's choice (FM94.DnpCountsMembers: every
+    member visited counts); the hierarchical view and the flat data must agree about it whatever it is (C09)."""
+    return [[221005, 102002, 7004, 12001, 10004, 11003],
+            [221003, 302001, 12001],
+            [221003, 201130, 12001, 201000, 10004, 1001],
+            [221004, 101000, 31001, 12001, 10004, 11003, 13011],
+            [221002, 101002, 12001, 10004],
+            [1001, 221004, 103001, 12001, 4001, 10004, 11003, 2001]]
+
+
 def sample(items, k, rnd):
     if k >= len(items):
         return list(items)
@@ -248,7 +260,7 @@ def catalogue(tier, seed=0):
     from . import gen
     n = 12 if tier == 'quick' else 60
     g = gen.generate(seed, n, n, n)
-    out = {'plain': p, 'struct': s, 'bitmap': b, 'open': open_templates(),
+    out = {'plain': p, 'struct': s, 'bitmap': b, 'open': open_templates(), 'dnp': dnp_templates(),
            'rnd_plain': g['plain'], 'rnd_struct': g['struct'], 'rnd_bitmap': g['bitmap']}
     # Table D sequences as one-descriptor templates (the sequences real messages are made of)
     for mv, seqs in table_d_sample(tier, seed, nquick=12).items():
